@@ -302,10 +302,10 @@ func c04Goyacc(e *Env) {
 	}
 }
 
-var c04Alphabet = []string{"C", "R", "2", "b", "#", "m", "_", "/", "[", "]", ",", "{", "}", "=", " ", ";", "\n"}
+var c04Alphabet = []string{"C", "R", "2", "b", "#", "m", "_", "/", "[", "]", ",", "{", "}", "=", " ", ";", "\n", "\r"}
 
 func runC04(e *Env) {
-	e.R.Rule = "every string over a 17-character alphabet (one representative per lexer case, both mode switches, both trivia kinds) up to the stated length, every extension of every reference-viable prefix up to a larger length, and every edge of the (LR stack, lexer mode) state graph of chords.y is run through the real lexer and parser and compared with the documented tokeniser + SLR(1) recogniser of chords.y (cross-checked against an Earley recogniser) + independent tree builder; distinct = distinct string; non-trivial = accepted sentence whose tree was compared"
+	e.R.Rule = "every string over a 18-character alphabet (one representative per lexer case, both mode switches, both trivia kinds) up to the stated length, every extension of every reference-viable prefix up to a larger length, and every edge of the (LR stack, lexer mode) state graph of chords.y is run through the real lexer and parser and compared with the documented tokeniser + SLR(1) recogniser of chords.y (cross-checked against an Earley recogniser) + independent tree builder; distinct = distinct string; non-trivial = accepted sentence whose tree was compared"
 	e.R.Assume("reference tokenisation as documented in DESIGN.md §3.2; acceptance oracle derived from input/ast/chords.y on disk; the generated parser is bound to chords.y by regeneration (supporting step); the LALR stack is not observed, only token stream, lexer mode (hook), verdict and tree")
 	g, p, err := loadGrammar(e.RepoDir)
 	if err != nil {
@@ -357,10 +357,10 @@ func runC04(e *Env) {
 		}
 	})
 	_ = accepted
-	e.R.AddPart(ev.Part{Name: "all-strings", Enumerated: fmt.Sprintf("every string of length 1..%d over the 17-character alphabet %q", maxLen, strings.Join(A, "")), Executions: int64(total), Exhaustive: true})
+	e.R.AddPart(ev.Part{Name: "all-strings", Enumerated: fmt.Sprintf("every string of length 1..%d over the 18-character alphabet %q", maxLen, strings.Join(A, "")), Executions: int64(total), Exhaustive: true})
 
 	// (1b) unusual characters: tab, CR, non-ASCII letters, Unicode accidentals, NUL, invalid UTF-8
-	exotic := []string{"C", "2", "m", "_", "/", "[", "]", "{", "}", "=", "\t", "\r", "é", "♭", "\x00", "\xff", "　"}
+	exotic := []string{"C", "2", "m", "_", "/", "[", "]", "{", "}", "=", "\t", "\r", "é", "♭", "\x00", "\xff", "　", ";", "\n", "１"}
 	exLen := 3
 	if e.Thorough {
 		exLen = 4
@@ -387,7 +387,33 @@ func runC04(e *Env) {
 			c04Text(e, p, exStrs[i], true)
 		}
 	})
-	e.R.AddPart(ev.Part{Name: "unusual-characters", Enumerated: fmt.Sprintf("every string of length 1..%d over 17 symbols including tab, CR, é, ♭, ideographic space, NUL and an invalid UTF-8 byte, plus 8 longer texts", exLen), Executions: int64(len(exStrs)), Exhaustive: true})
+	e.R.AddPart(ev.Part{Name: "unusual-characters", Enumerated: fmt.Sprintf("every string of length 1..%d over 20 symbols including tab, CR, é, ♭, ideographic space, NUL, an invalid UTF-8 byte, a fullwidth digit and the comment delimiters, plus 8 longer texts", exLen), Executions: int64(len(exStrs)), Exhaustive: true})
+
+	// (1c) one foreign character anywhere: every position of a set of sentences x every
+	// representative of the Unicode classes a lexer predicate could be written with
+	// (unicode.IsDigit / IsLetter / IsSpace / IsUpper / IsPunct / IsSymbol ...), inserted or
+	// replacing the character there
+	foreign := []string{"\t", "\r", "\v", "\f", "\x00", "\x7f", "\x1b", "\xff", "\xc3", "\xef\xbb\xbf", "\u0085", "\u00a0", "\u2028", "\u3000", "\u200b",
+		"é", "É", "ß", "中", "１", "٢", "²", "Ⅷ", "½", "♭", "♯", "𝄪", "＃", "ｂ", "－", "‐", "＿", "／", "［", "］", "｛", "｝", "＝", "，", "；", "\u0301", "😀", "Ｃ", "ｍ", "Ｒ"}
+	sentences := []string{"C[1]", "Cm7/E[1,1/2]{key=A,txt=a b}", "1b_7/3#[2] ;c d\nR[1]", "C[1] ;x\nD[2]\n", "G_7[4]{bpm=90}\n", "R[1/2] 5[2]"}
+	var fStrs []string
+	for _, snt := range sentences {
+		rs := []rune(snt)
+		for pos := 0; pos <= len(rs); pos++ {
+			for _, f := range foreign {
+				fStrs = append(fStrs, string(rs[:pos])+f+string(rs[pos:]))
+				if pos < len(rs) {
+					fStrs = append(fStrs, string(rs[:pos])+f+string(rs[pos+1:]))
+				}
+			}
+		}
+	}
+	mc.ParFor(len(fStrs), func(i int) {
+		if !c04Text(e, p, fStrs[i], false) {
+			c04Text(e, p, fStrs[i], true)
+		}
+	})
+	e.R.AddPart(ev.Part{Name: "one-foreign-character", Enumerated: fmt.Sprintf("%d sentences (both notations, comment, metadata, `_`, bass, several durations) x every position x {insert, replace} x %d characters: one representative per Unicode class a lexer predicate could be written with (Nd/No/Nl digits, upper/lower/other letters, Zs/Zl and control spaces, fullwidth forms of every punctuation of the language, combining mark, 4-byte character, BOM, truncated and invalid UTF-8)", len(sentences), len(foreign)), Executions: int64(len(fStrs)), Exhaustive: true})
 
 	// (2) pruned deep sweep: every reference-viable prefix extended by every character, dead ones by two more
 	deep := 6
